@@ -157,21 +157,23 @@ theorem invert_lsb0_mirror (l : Bits) (P : PosSpec) :
     · exact invertMany_mirror _ l
 
 /- Full statement: ∀ l b P, setOp .lsb0 l b P = (setOp .msb0 l.reverse b P).map List.reverse               -/
-theorem set_lsb0_mirror_partial (l : Bits) (b : Bool) (P : PosSpec) (h : setRange P = false) :
+/-- `set(value, pos)` for all bits, one position, a list of positions, and every range that is not written as a
+    single slice (empty, or with an element that is negative / out of range: those are set one by one). -/
+theorem set_lsb0_mirror_partial (l : Bits) (b : Bool) (P : PosSpec) (h : setRange P l.length = false) :
     setOp .lsb0 l b P = (setOp .msb0 l.reverse b P).map List.reverse := by
   cases P with
   | all =>
     simp only [setOp, List.length_reverse]
     split
-    · rfl
+    · simp [Except.map]
     · simp [Except.map]
   | one i => exact setMany_mirror b [i] l
   | many ps => exact setMany_mirror b ps l
-  | range a b' c => simp [setRange] at h
+  | range a b' c => exact setOp_range_mirror l b a b' c h
 
 /-- `set(1, range(0, 2))` works under msb0 and raises (AttributeError, on `int._bitarray`) under lsb0. -/
 theorem set_lsb0_setRange_witness :
-    setRange (.range 0 2 1) = true ∧
+    setRange (.range 0 2 1) 3 = true ∧
     setOp .lsb0 [false, false, false] true (.range 0 2 1) = .error (.internal "AttributeError") ∧
     (setOp .msb0 [false, false, false].reverse true (.range 0 2 1)).map List.reverse = .ok [false, true, true] := by
   decide
@@ -200,6 +202,7 @@ example : getSliceOp .lsb0 [true, true, false, true, false, false] ⟨some (-5),
 example : setSliceBits .lsb0 [true, true, false, true, false, false] ⟨some 1, some 4, none⟩ [true] = .ok [true, true, true, false] := by decide
 example : delSliceOp .lsb0 [true, true, false, true, false, false] ⟨some 0, none, some 3⟩ = .ok [true, true, true, false] := by decide
 example : getItem .lsb0 [true, false, false] 2 = .ok true ∧ getItem .lsb0 [true, false, false] (-3) = .ok false := by decide
-example : setRange (.many [0, -1]) = false ∧ setOp .lsb0 [false, false, false] true (.many [0, -1]) = .ok [true, false, true] := by decide
+example : setRange (.many [0, -1]) 3 = false ∧ setOp .lsb0 [false, false, false] true (.many [0, -1]) = .ok [true, false, true] := by decide
+example : setRange (.range (-1) (-4) (-2)) 3 = false ∧ setOp .lsb0 [false, false, false] true (.range (-1) (-4) (-2)) = .ok [true, false, true] := by decide
 
 end BM.C12
